@@ -227,7 +227,9 @@ func runC07(res *vh.Result) {
 					}
 				}
 			}
-			return strings.Contains(string(b), string(C.IP.To4()))
+			// an Association Setup Request naming the bystander's node id legitimately ends its sessions: not sent.
+			// Any other message may name it (e.g. a take-over Node ID in a modification of somebody else's session).
+			return len(b) > 1 && b[1] == vh.MAssocReq && strings.Contains(string(b), string(C.IP.To4()))
 		}
 		// ---- hostile sequence ----
 		target := aSess[len(aSess)-1]
@@ -248,8 +250,13 @@ func runC07(res *vh.Result) {
 			case 5, 6:
 				ies := append([]*vh.IE{vh.NodeIDv4(A.IP), vh.FSEIDv4(0xa9, A.IP)}, richRules(rng)...)
 				return "establishment", vh.BuildMsg(vh.MEstReq, &zero, sq, ies...)
-			case 7, 8, 9:
+			case 7, 8:
 				return "modification", vh.BuildMsg(vh.MModReq, &target, sq, modIEs(rng)...)
+			case 9:
+				// a take-over: the modification carries a Node ID - a fresh one, the sender's own, or the bystander's
+				nid := [][]byte{{127, 99, 99, 99}, A.IP.To4(), C.IP.To4()}[rng.Intn(3)]
+				ies := append([]*vh.IE{vh.NodeIDv4(nid)}, modIEs(rng)[:rng.Intn(4)]...)
+				return "modification-with-node-id", vh.BuildMsg(vh.MModReq, &target, sq, ies...)
 			case 10:
 				return "deletion", vh.BuildMsg(vh.MDelReq, &target, sq)
 			case 11:
